@@ -257,7 +257,8 @@ struct GuardedLwe {
     LweSample *s; Torus32 *orig; GuardBuf g; int n;
     GuardedLwe(const LweParams *params) : n(params->n) {
         s = new_LweSample(params); orig = s->a; g.alloc(n > 0 ? n : 1); s->a = g.p;
-        for (int i = 0; i < n; i++) s->a[i] = 0; s->b = 0; s->current_variance = 0;
+        // never hand the library a zeroed result object: a function that accumulates where it should assign must show
+        for (int i = 0; i < n; i++) s->a[i] = (int32_t) (0x5A5A5A5Au + 2654435761u * (uint32_t) i); s->b = (int32_t) 0xC3C3C3C3u; s->current_variance = 7.75;
     }
     ~GuardedLwe() { s->a = orig; delete_LweSample(s); }
     GuardedLwe(const GuardedLwe &) = delete;
